@@ -105,8 +105,9 @@ func Harness_C18_purge_during_fetch() {
 	e.chanList = nil
 	e.Cacheable(&HTTPResponse{}, 100)
 	s2, _ := e2.Get()
-	// known finding F11: with a store, the write-through of the in-flight fetch re-creates the
-	// persisted copy after the purge deleted it, and the fresh entry restores it
+	// F11 (fixed in f82aea6: the purge detaches the entry from the store): with a store, the
+	// write-through of the in-flight fetch used to re-create the persisted copy after the purge had
+	// deleted it, and the fresh entry restored it.  A fixed entry suppresses nothing.
 	verifAssertKF("C18.racing.next-request-after-purge-goes-upstream", s2 == StatusFetching, "F11", withStore)
 	verifReach("C18.racing.end")
 }
